@@ -109,7 +109,7 @@ PROPS = {
              "discipline (machine-level memory safety) is outside Lean. Trusted: Lean kernel, harness.",
         assumptions=["chunk >= 1", "position() not wrapped"]),
     "C09": dict(
-        module="Flussab.Props.C09", modules=["Flussab.Props.C09", "Flussab.Props.C09Parsers", "Flussab.Props.C09Btor2"],
+        module="Flussab.Props.C09", modules=["Flussab.Props.C09", "Flussab.Props.C09Parsers", "Flussab.Props.C09Btor2", "Flussab.Props.C09Aiger"],
         engines=[("aiger", 1500, 50000, "ls"), ("reader", 4000, 150000, ""), ("cnf", 2500, 80000, "ls"), ("btor2", 1500, 50000, "ls")],
         claim="Reader layer proved for all histories and schedules: exactly one non-Interrupted read per refill "
               "(one_read_per_refill), no read when buffered data satisfies the request (no_read_if_satisfied), no "
@@ -123,7 +123,9 @@ PROPS = {
              "BTOR2 and AIGER engines: one line per read, delivered-byte count compared exactly with the model's "
              "prediction); BTOR2 look-ahead is a theorem too (btor2_item_no_lookahead, btor2_document_no_lookahead: "
              "peeked <= pos for lines ending with their newline, peeked <= pos + 1 with the cursor on the newline for "
-             "lines ending in a comment); AIGER look-ahead theorem pending. Trusted: Lean kernel, harness.",
+             "lines ending in a comment); AIGER (Props/C09Aiger.lean): aiger_header/item/symbol_no_lookahead, "
+             "aig_varint_no_lookahead (peeked <= pos when an item is returned, binary gates after the second varint). "
+             "Trusted: Lean kernel, harness.",
         assumptions=["chunk >= 1"]),
     "C13": dict(
         module="Flussab.Props.C13", engines=[("scan", 30000, 1500000, "")], release=True,
@@ -233,7 +235,7 @@ PROPS = {
               "recomputed from the header, for all 5 literal types and both ignore_header settings.",
         note="AIGER limits are theorems (Props/C06Aiger.lean: aag/aig_header_sane, aiger_lit_within, *_latch_within, "
              "aag_gate_within, aig_delta_le_code, aiger_section_exhausted/count, aag/aig_parse_sizes, "
-             "aiger_justice_sizes, aiger_symbol_index_within, aig_varint_exact). DIMACS limits are theorems "
+             "aiger_justice_sizes, aiger_symbol_index_within, aig_varint_exact, aiger_uint_exact). DIMACS limits are theorems "
              "(Props/C06Cnf.lean: cnf_lits_within, cnf_clean_end_count, gcnf_group_within, cnf_header_within, for "
              "every accepted byte string, corollaries of cnf_parsed_is_wf). BTOR2 (Props/C06Btor2.lean): "
              "btor2_uint/positive_int/nonnegative_int_exact (a returned number is the decimal value of the digits "
@@ -251,15 +253,16 @@ PROPS = {
               "keyword tables regenerated from the source. Tie: values "
               "built from the repo's own types and writers, parsed back and compared (x= expected value), and "
               "parse(write(parse(t))) = parse(t) on every accepted text.",
-        note="AIGER: aig_varint_roundtrip (all n < 2^64, lengths 1-10), aig_varint_shape, aiger_header_fields are "
-             "proved; the whole-file AIGER round trips are stated (aag_roundtrip_full / aig_roundtrip_full, explicit "
-             "WFaig / WFord domains, instantiated by kernel evaluation on concrete circuits) but not yet proved in "
-             "general - carried by the aiger engine's rt family. Texts shorter than 2^64-1 bytes, "
+        note="AIGER: aag_roundtrip and aig_roundtrip are proved in general over explicit domains (AigDomain / "
+             "OrdDomain = DESIGN's WFaig / WFord plus bits <= 64 and file shorter than usize::MAX; the binary writer's "
+             "assert! and index never fire), with aig_varint_roundtrip (lengths 1-10), header field trimming (5-9 "
+             "fields), latch reset forms, symbols, UTF-8 names and comments as sub-lemmas. The AIGER converse "
+             "(parse o write o parse = parse) is checked by the engine only. Texts shorter than 2^64-1 bytes, "
              "non-failing source. Trusted: Lean kernel, harness, tools/gen_tables.py.",
         trusted=["tools/gen_tables.py (keyword / name tables translator)"],
         assumptions=["document shorter than 2^64 - 1 bytes"]),
     "C04": dict(
-        module="Flussab.Props.C04", modules=["Flussab.Props.C04", "Flussab.Props.C04Prefix", "Flussab.Props.C04Btor2"],
+        module="Flussab.Props.C04", modules=["Flussab.Props.C04", "Flussab.Props.C04Prefix", "Flussab.Props.C04Btor2", "Flussab.Props.C04Aiger"],
         engines=[("aiger", 2000, 60000, "fault"), ("aiger", 2, 300, "sweep"), ("cnf", 3000, 100000, "fault+logfault"), ("cnf", 25, 1500, "sweep"), ("btor2", 2000, 60000, "fault"), ("btor2", 15, 600, "sweep")],
         claim="Theorems for every byte string and every fault offset (the view delivers b then fails): "
               "cnf_fault_never_clean_end / log_fault_never_ok / btor2_fault_final (a failing source is never reported "
@@ -274,8 +277,9 @@ PROPS = {
              "the fault-free run over any extension b ++ more) and for DIMACS (Props/C04Prefix.lean: cnf_fault_prefix - "
              "items are a prefix and a returned header is the same header; cnf_fault_syntax_same / "
              "log_fault_syntax_same - a syntax error of the failing run is the very syntax error, same location and "
-             "items, of the fault-free run; by a prefix-simulation of every parser function). AIGER: aiger_fault_io / "
-             "aiger_eof_not_on_fault (in Props/C05Aiger.lean, namespace Flussab.C04) cover the text entry points. "
+             "items, of the fault-free run; by a prefix-simulation of every parser function). AIGER (Props/C04Aiger.lean): aiger_fault_io, aag/aig_parse_fault, aig_gate_fault, "
+             "aag/aig_parse_not_ok_on_fault (with a failing source parse() never returns Ok); the item-prefix clause "
+             "for AIGER is checked by the engine's fault sweeps. "
              "Trusted: Lean kernel, harness.",
         assumptions=["input shorter than 2^63 bytes"]),
     "C05": dict(
@@ -292,9 +296,9 @@ PROPS = {
               "engines on mutated / arbitrary / corrupted inputs, all literal types, debug AND release builds, each "
               "call under catch_unwind; bounded memory measured by the counting allocator (peak <= 64*len + 1 MiB).",
         note="Heap size, native stack depth and wall time are measured, not modelled. AIGER: aiger_new/next/symbol/"
-             "comment_no_panic, aag_parse_no_panic (whole ASCII parse(), all 5 literal types, failing sources) are "
-             "proved; the binary and-gate block (a consumed byte may be 0x0A, outside the no-newline line invariant) is "
-             "left as aig_gates_no_panic_full / aig_parse_no_panic_full and carried by the engine. "
+             "comment_no_panic, aag_parse_no_panic and aig_parse_no_panic / aig_gate_no_panic (whole ASCII and binary "
+             "parse(), every entry point, all 5 literal types, failing sources; the binary and-gate block via a "
+             "masked ghost input) are proved. "
              "Hypothesis: input shorter than 2^63 bytes (so line_at_offset cannot overflow). Trusted: Lean kernel, "
              "harness.",
         assumptions=["input shorter than 2^63 bytes"]),
@@ -313,7 +317,7 @@ PROPS = {
              "generator is independent of Spec/Layout.lean).",
         assumptions=["document shorter than 2^64 - 1 bytes"]),
     "C08": dict(
-        module="Flussab.Props.C08", modules=["Flussab.Props.C08", "Flussab.Props.C08Btor2"],
+        module="Flussab.Props.C08", modules=["Flussab.Props.C08", "Flussab.Props.C08Btor2", "Flussab.Props.C08Aiger"],
         engines=[("aiger", 4000, 150000, "corrupt+mutate+arbitrary+utf8"), ("cnf", 5000, 250000, "corrupt+mutate+arbitrary+logmut"), ("btor2", 4000, 150000, "corrupt+mutate+arbitrary")],
         claim="Range, for every input and both source kinds: cnf_error_in_range, log_error_in_range, "
               "btor2_error_in_range - a reported (line, col) satisfies 1 <= line <= nlines+1 and 1 <= col <= "
@@ -324,9 +328,12 @@ PROPS = {
               "token) is evaluated on the implementation: documents rendered with known token spans (plain and full "
               "layout), one token replaced (garbage, out-of-range, overflowing, wrap-class numeral), reported "
               "position must lie on the token, under every schedule.",
-        note="The catalogue clause is checked, not proved (C08's per-class theorems are its proved part). AIGER: "
-             "aiger_error_in_range (Props/C05Aiger.lean, namespace Flussab.C08) for the text entry points; the binary "
-             "and-gate block is treated as the continuation of one line (engine oracle locates it independently). "
+        note="The catalogue clause is checked, not proved (C08's per-class theorems are its proved part). AIGER "
+             "(Props/C08Aiger.lean): aiger_error_in_range, aag_parse_error_in_range; for binary files the and-gate "
+             "block is not text - a varint byte may be 0x0A - and is the continuation of the line on which it starts: "
+             "aig_gate/aig_parse_error_in_range state the range over the input with the consumed block bytes masked "
+             "(mask_facts); the literal newline-split reading of the property is false there (counter-example in the "
+             "file) and the engine oracle uses the same block-as-one-line reading (DESIGN 4 C08). "
              "Trusted: Lean kernel, harness.",
         assumptions=["input shorter than 2^63 bytes"]),
 }
